@@ -5,7 +5,8 @@
     m1 <fn> <val>            fn ∈ sin cos tan asin acos atan exp log sqrt abs floor ceil round trunc
     m2 pow|atan2 <val> <val>
     mx max|min <val>*
-    mxo max|min <val>*       every argument is an object whose valueOf returns <val>; answer <result>;<mask of
+    encc uri|comp <sv> <sv>  encodeURI(a + b): the `+` of the interpreter, then the encoder
+    mxo max|min|atan2|pow <val>*   every argument is an object whose valueOf returns <val>; answer <result>;<mask of
                              the arguments whose valueOf was called>
     isNaN <val> | isFinite <val>
     enc uri|comp <sv> | dec uri|comp <sv> | escape <sv> | unescape <sv>
@@ -113,24 +114,12 @@ def svUnits : SV → List Nat
   | .go b => unitsOfBytes b
   | .u16 u => u
 
-/-- ill-formed UTF-16 (a surrogate code unit that is not part of a pair) -/
-def hasLone : List Nat → Bool
-  | [] => false
-  | u :: v :: rest =>
-    if 0xD800 ≤ u ∧ u < 0xDC00 ∧ 0xDC00 ≤ v ∧ v < 0xE000 then hasLone rest
-    else if 0xD800 ≤ u ∧ u < 0xE000 then true
-    else hasLone (v :: rest)
-  | [u] => 0xD800 ≤ u ∧ u < 0xE000
-
 def joinDev (ds : List String) : String :=
   if ds.isEmpty then "-" else ",".intercalate ds
 
 def devStr (op : String) (v : SV) : String :=
   let lone := match v with | .u16 u => hasLone u | .go _ => false
-  let d0 := if lone && op != "enc" then ["lone_surrogate_input"] else []
-  -- an ESCAPED surrogate that stays unpaired in the result (the result is a Go string: it becomes U+FFFD)
-  let d1 := if op == "unescape" && hasLone (Spec.unescape (unitsOfBytes v.string)) then ["unescape_lone_surrogate"] else []
-  joinDev (d0 ++ d1)
+  joinDev (if lone && op != "enc" then ["lone_surrogate_input"] else [])
 
 def modelStr (o : Option (List Nat)) : String := strOut (o.map unitsOfBytes)
 
@@ -195,12 +184,26 @@ partial def handle (ws : List String) : String :=
     match allNums ts with
     | some l =>
       let mask (n : Nat) : String := String.ofList (List.replicate n '1' ++ List.replicate (l.length - n) '0')
-      match (if op = "max" then some (mathMax l, Spec.max l) else if op = "min" then some (mathMin l, Spec.min l) else none) with
-      | some (m, sp) =>
-        reply (exactOut m ++ ";" ++ mask (maxMinConverted l)) (exactOut sp ++ ";" ++ mask (Spec.maxMinConverted l))
-          (if l.dropLast.any isNaN then "maxmin_tonumber_skipped" else "-")
-      | none => "bad-op"
+      match op, l with
+      | "max", _ => reply (exactOut (mathMax l) ++ ";" ++ mask (maxMinConverted l)) (exactOut (Spec.max l) ++ ";" ++ mask (Spec.maxMinConverted l)) "-"
+      | "min", _ => reply (exactOut (mathMin l) ++ ";" ++ mask (maxMinConverted l)) (exactOut (Spec.min l) ++ ";" ++ mask (Spec.maxMinConverted l)) "-"
+      | "atan2", [y, x] =>
+        reply (approxOut (mathAtan2 lib y x) ++ ";" ++ mask binaryConverted)
+          (approxOut ((Spec.atan2Table y x).getD (refAtan2 y x)) ++ ";" ++ mask 2) (if devAtan2 y x then "atan2_underflow" else "-")
+      | "pow", [x, y] =>
+        reply (approxOut (mathPow lib x y) ++ ";" ++ mask binaryConverted)
+          (approxOut ((Spec.powTable x y).getD (refPow x y)) ++ ";" ++ mask 2) (if devPowLog x y then "log_subnormal" else "-")
+      | _, _ => "bad-op"
     | none => "bad-op"
+  | ["encc", k, a, b] =>
+    -- encodeURI / encodeURIComponent of the concatenation a + b evaluated by the interpreter
+    match sv? a, sv? b with
+    | some x, some y =>
+      let us := svUnits x ++ svUnits y
+      if k = "uri" then reply (modelStr (encodeURI (concat x y))) (strOut (Spec.encodeURI us)) "-"
+      else if k = "comp" then reply (modelStr (encodeURIComponent (concat x y))) (strOut (Spec.encodeURIComponent us)) "-"
+      else "bad-op"
+    | _, _ => "bad-op"
   | ["isNaN", a] =>
     match val? a with
     | some v => reply (boolOut (globalIsNaN env v)) (boolOut (Spec.globalIsNaN env v)) "-"
@@ -230,7 +233,7 @@ partial def handle (ws : List String) : String :=
   | ["unescape", a] =>
     match sv? a with
     | none => "bad-op"
-    | some v => reply (modelStr (some (unescape v))) (strOut (some (Spec.unescape (svUnits v)))) (devStr "unescape" v)
+    | some v => reply (strOut (some (unescape v).units)) (strOut (some (Spec.unescape (svUnits v)))) (devStr "unescape" v)
   | _ => "bad-op"
 
 end OttoVerif.C13.Driver
